@@ -479,6 +479,15 @@ def flatten_translation(ctx, rule):
     ctx.check([s for _, s in ig] == ["SourceMapBuilder::add_to_ignore_list(builder,raw.src_id)"], rule, fn, "ignore:new-id", "ignore-list membership is recorded under the new id", detail=str(ig))
     for bi, s in ig:
         ctx.check(has_fact(b, bi, r, ("true", "BTreeSet::contains(map.ignore_list,Token::get_src_id(token))", None)), rule, fn, "ignore:old-id", "membership is tested with the old id on the section's map", ctx.site(b, bi))
+    # the two carry-overs are independent: neither is nested under the other's conditions
+    def bool_facts(bb):
+        return sorted(set((f.op, str(f.l)) for f in q.facts_at(b, bb, r) if f.op in ("true", "false")))
+    for bi, s_ in ig:
+        extra = [f for f in bool_facts(bi) if f != ("true", "BTreeSet::contains(map.ignore_list,Token::get_src_id(token))")]
+        ctx.check(not extra, rule, fn, "ignore:independent", "ignore-list membership is carried over for every token of an ignored source, independently of the contents handling", ctx.site(b, bi), detail=str(extra))
+    for bi, s_ in sets:
+        extra = [f for f in bool_facts(bi) if f not in (("true", "Option::is_some(Token::get_source(token))"), ("false", "SourceMapBuilder::has_source_contents(builder,raw.src_id)"))]
+        ctx.check(not extra, rule, fn, "contents:independent", "contents are carried over under exactly the two documented conditions", ctx.site(b, bi), detail=str(extra))
     # R4 arms
     ms = [s for s, _, _ in q.def_shapes(b, [l for l, n in r.items() if n == "map"][0], r)]
     GS = "some(SourceMapSection::get_sourcemap(section))"
